@@ -1,5 +1,5 @@
 #!/bin/bash
-# tools/matrix.sh [ids]  — run every seeded change against the given checks (default: all) and append CAUGHT/MISSED lines to seeded/matrix.log
+# tools/matrix.sh [ids]  (ONLY="seeded/C03-m3 seeded/C03-m4" restricts the changes) — run every seeded change against the given checks (default: all) and append CAUGHT/MISSED lines to seeded/matrix.log
 cd "$(dirname "$0")/.."
 ids=${1:-C01,C02,C03,C04,C05,C06,C07,C08,C09,C10,C11,C12,C13,C14,C15,C16,C17,C18,C19,C20}
-ls -d seeded/*/ | sed 's|/$||' | xargs -P ${PAR:-3} -I{} sh -c "tools/try_patch.sh {}/patch.diff $ids 2>&1 | sed 's|^|{} |'" >> seeded/matrix.log
+{ if [ -n "$ONLY" ]; then printf '%s\n' $ONLY; else ls -d seeded/*/ | sed 's|/$||' | grep -v mutation_campaign; fi; } | xargs -P ${PAR:-3} -I{} sh -c "tools/try_patch.sh {}/patch.diff $ids 2>&1 | sed 's|^|{} |'" >> seeded/matrix.log
